@@ -181,6 +181,9 @@ func (fv *FV) execBlock(st *State, b *ssa.BasicBlock, pred *ssa.BasicBlock) {
 		var lc *LoopContract
 		if fc != nil {
 			lc = fc.Loops[li.idx]
+			if lc == nil {
+				lc = fc.Loops[-1] // wildcard loop contract
+			}
 		}
 		if lc == nil {
 			fv.unsupportedf("loop #%d of %s has no invariant (block %d)", li.idx, fn.String(), b.Index)
@@ -196,7 +199,7 @@ func (fv *FV) execBlock(st *State, b *ssa.BasicBlock, pred *ssa.BasicBlock) {
 			if inv.Free {
 				continue
 			}
-			g := fv.evalBool(inv.E, env)
+			g := fv.evalGoal(st, inv.E, env, 0)
 			fv.addObl(st, "invariant", fmt.Sprintf("loop#%d:%s:%s@%s", li.idx, inv.Name, kind, fn.Name()), g, inv.Src, inv.Tags)
 		}
 		if fromInside {
@@ -246,7 +249,7 @@ func (fv *FV) execBlock(st *State, b *ssa.BasicBlock, pred *ssa.BasicBlock) {
 		}
 		env = fv.envFor(st)
 		for _, inv := range lc.Invariants {
-			st.assume(fv.evalBool(inv.E, env))
+			fv.assumeSpec(st, inv.E, env)
 		}
 		if lc.Decreases != nil {
 			d := fv.evalSpec(lc.Decreases, env)
